@@ -124,6 +124,9 @@ def static_sites(ctx, files):
         ty = c.get("ty", "")
         if "__CALLSITE" in path or path.endswith("::META") or "descriptor::INIT" in path or "register_metric" in path or ty.startswith("vise::") or "::testonly::" in path:
             continue
+        if ty.replace(" ", "") in ("std::sync::atomic::Atomic<u64>", "std::sync::atomic::Atomic<usize>", "std::sync::atomic::Atomic<u32>", "std::sync::atomic::Atomic<i64>",
+                                   "std::sync::atomic::AtomicU64", "std::sync::atomic::AtomicUsize", "std::sync::atomic::AtomicU32", "std::sync::atomic::AtomicI64"):
+            continue        # a plain integer counter (statistics); it cannot hold a remembered decision about a value
         out.append(("static-state", path, None, "static %s : %s" % (path.rsplit("::", 1)[-1], ty[:80])))
     return out
 
